@@ -459,8 +459,9 @@ def gen_c13_suppress(rng: random.Random, sid: str, thorough: bool = False) -> di
                 evs.append((times[j], {'op': 'query', 'types': [T1] if j == 0 else [], 'qu': False, 'qid': qid + j, 'ka': part,
                                        'sp': rng.randint(0, 2), 'qsp': rng.randint(0, 2), 'tc': j < npk - 1 or last_tc, 'src': src}))
         else:
+            # (also from a one-shot asker that multicasts its query from another port than 5353: heard all the same)
             evs.append((tq, {'op': 'query', 'types': [T1], 'qu': rng.random() < 0.15, 'qid': rng.randint(0, 65535),
-                             'ka': kal, 'sp': rng.randint(0, 2), 'qsp': rng.randint(0, 2)}))
+                             'ka': kal, 'sp': rng.randint(0, 2), 'qsp': rng.randint(0, 2), 'port': rng.choice([5353, 5353, 40000, 1024])}))
     evs.sort(key=lambda x: x[0])
     # the hold of a truncated query is scripted (437 ms): no other step of the scenario and no start-up query may fall on the
     # instant it runs out (which of two timers of one instant fires first is not specified)
